@@ -237,9 +237,9 @@ type shape struct {
 
 func genPayloadLen(r *rand.Rand, s shape) int {
 	switch x := r.Intn(40); {
-	case x == 0 && s.big:
+	case x < 3 && s.big:
 		return 1500
-	case x == 1 && s.big:
+	case x < 5 && s.big:
 		return 1200
 	case x < 6:
 		return 0
@@ -538,13 +538,14 @@ func main() {
 		}
 	}
 	// several sets only to keep the generated .v files small (parsing byte literals dominates the check)
-	enc, enc2, encBig, encBnd := mk("c14enc", "enc_case", "enc"), mk("c14enc2", "enc_case", "enc"),
-		mk("c14big", "enc_case", "enc"), mk("c14bnd", "enc_case", "enc")
+	enc, encBig, encBnd := mk("c14enc", "enc_case", "enc"), mk("c14big", "enc_case", "enc"), mk("c14bnd", "enc_case", "enc")
+	encs := []*cq.Set{enc, mk("c14enc2", "enc_case", "enc"), mk("c14enc3", "enc_case", "enc"), mk("c14enc4", "enc_case", "enc")}
 	icpt, icptBnd := mk("c14icpt", "icpt_case", "icpt"), mk("c14icptbnd", "icpt_case", "icpt")
-	all := []*cq.Set{enc, enc2, encBig, encBnd, icpt, icptBnd}
+	icpts := []*cq.Set{icpt, mk("c14icpt2", "icpt_case", "icpt")}
+	all := append(append([]*cq.Set{}, encs...), encBig, encBnd, icpts[0], icpts[1], icptBnd)
 	load := func(file, bucket string) {
 		var probe map[string]interface{}
-		if set := cq.LoadReplay(file, &probe); set == "c14icpt" || set == "c14icptbnd" {
+		if set := cq.LoadReplay(file, &probe); len(set) >= 7 && set[:7] == "c14icpt" {
 			var c icptCase
 			cq.LoadReplay(file, &c)
 			icpt.Cases = append(icpt.Cases, runIcpt(c).toCase(bucket))
@@ -566,11 +567,7 @@ func main() {
 	ne := o.Scale(480, 20000)
 	for i := 0; i < ne; i++ {
 		c, b := genEnc(r, false, false)
-		if i%2 == 0 {
-			enc.Cases = append(enc.Cases, runEnc(c).toCase(b...))
-		} else {
-			enc2.Cases = append(enc2.Cases, runEnc(c).toCase(b...))
-		}
+		encs[i%4].Cases = append(encs[i%4].Cases, runEnc(c).toCase(b...))
 	}
 	ng := o.Scale(40, 1500)
 	for i := 0; i < ng; i++ {
@@ -585,7 +582,7 @@ func main() {
 	ni := o.Scale(200, 6000)
 	for i := 0; i < ni; i++ {
 		c, b := genIcpt(r, false)
-		icpt.Cases = append(icpt.Cases, runIcpt(c).toCase(b...))
+		icpts[i%2].Cases = append(icpts[i%2].Cases, runIcpt(c).toCase(b...))
 	}
 	nib := o.Scale(10, 300)
 	for i := 0; i < nib; i++ {
